@@ -1,5 +1,10 @@
+import os, sys
+sys.path.insert(0, os.path.dirname(os.path.dirname(os.path.abspath(__file__))))
+import coqreplay as _coqreplay
+
 PROP = {
     "coq": ["C02"],
+    "extra": [_coqreplay.replay_cc],
     "exhaustive": False,
     "rule": "For generated valid requests of all 30 calls (MBAP and RTU framing): the valid reply, the valid reply plus trailing "
             "bytes, single-field corruptions (txn, protocol id, length, unit, function code, exception bit, byte count, data, echo "
